@@ -561,19 +561,29 @@ func JudgeDocker(in *Intent, args []string) string {
 	return ""
 }
 
-// ClassLeadingDash is the classifier of the suspected finding: the element the
-// transport places in operand position starts with '-' (and is not "-" alone,
-// which every one of the modelled parsers takes as an operand).
+// ClassLeadingDash is the classifier of the suspected finding: the argument
+// list element that the transport places in operand position starts with '-'
+// in a way the tool's parser reads as an option. For ssh that element is the
+// destination ([user@]host) and a lone "-" is still an operand; for docker the
+// container name also starts the "container:path" operand of docker cp, so
+// every container name with a leading '-' belongs to the class.
 const ClassLeadingDash = "operand-component-starts-with-dash"
 
 // knownClassOf classifies an endpoint (model only).
 func knownClassOf(protocol, user, host string) string {
-	operand := host
-	if protocol == "ssh" && user != "" {
-		operand = user + "@" + host
-	}
-	if len(operand) > 1 && operand[0] == '-' {
-		return ClassLeadingDash
+	switch protocol {
+	case "ssh":
+		operand := host
+		if user != "" {
+			operand = user + "@" + host
+		}
+		if len(operand) > 1 && operand[0] == '-' {
+			return ClassLeadingDash
+		}
+	case "docker":
+		if strings.HasPrefix(host, "-") {
+			return ClassLeadingDash
+		}
 	}
 	return ""
 }
